@@ -42,6 +42,7 @@ def all_spellings(rng, level, res, free, limit=8):
 def e2e_case(rng):
     units = {}
     expect_atoms = {}
+    has_h = False
     for ui in range(rng.randint(1, 2)):
         for _ in range(50):
             g = M.gen_molecule(rng, max_heavy=rng.randint(2, 6), p_arom=0.0, p_ring=0.2, charged=False)
@@ -59,18 +60,48 @@ def e2e_case(rng):
                 if t:
                     annots[n] = (t, attrs)
         r = M.render_fragment(rng, g, list(g.nodes), desc, opts={'leading': False, 'explicit_single': 0.0})
+        # hydrogens that need an annotation are written explicitly: C([H;w=0]); they count as atoms of the text
+        h_annots = {}
+        for n in g:
+            if g.nodes[n]['hcount'] - sum(x[2] for x in desc.get(n, [])) >= 1 and rng.random() < 0.3:
+                t, attrs = A.random_annotation(rng, 'frag', p_reserved=0.9)
+                if t:
+                    h_annots[n] = (t, attrs)
         toks = []
-        for t in r['tokens']:
-            if t[0] == 'atom' and t[2] in annots:
-                d = g.nodes[t[2]]
-                txt = M.atom_text(d, d['hcount'], bracket=True)
-                toks.append(('atom', txt[:-1] + ';' + annots[t[2]][0] + ']', t[2]))
-            else:
-                toks.append(t)
+        text_atoms = []          # what sits at each atom position of the text: ('heavy', n) or ('H', n)
+        src = list(r['tokens'])
+        k = 0
+        while k < len(src):
+            t = src[k]
+            if t[0] == 'atom':
+                n = t[2]
+                if n in annots:
+                    d = g.nodes[n]
+                    txt = M.atom_text(d, d['hcount'], bracket=True)
+                    toks.append(('atom', txt[:-1] + ';' + annots[n][0] + ']', n))
+                else:
+                    toks.append(t)
+                text_atoms.append(('heavy', n))
+                k += 1
+                while k < len(src) and src[k][0] in ('ring', 'desc') and src[k][2] == n:
+                    toks.append(src[k])
+                    k += 1
+                if n in h_annots:
+                    toks += [('open',), ('atom', '[H;' + h_annots[n][0] + ']', ('H', n)), ('close',)]
+                    text_atoms.append(('H', n))
+                continue
+            toks.append(t)
+            k += 1
         name = 'U%d' % ui
         units[name] = ''.join('(' if t[0] == 'open' else ')' if t[0] == 'close' else t[1] for t in toks)
-        idx = {n: i for i, n in enumerate(r['atoms'])}
-        expect_atoms[name] = {str(idx[n]): attrs for n, (t, attrs) in annots.items()}
+        expect_atoms[name] = {}
+        for pos, (kind_, n) in enumerate(text_atoms):
+            if kind_ == 'heavy' and n in annots:
+                expect_atoms[name][str(pos)] = annots[n][1]
+            elif kind_ == 'H':
+                expect_atoms[name][str(pos)] = h_annots[n][1]
+        if h_annots:
+            has_h = True
     names = sorted(units)
     n_nodes = rng.randint(1, 5)
     ast = G.random_ast(rng, n_nodes, max_depth=1, p_branch=0.2, p_bond=0.0, p_mult_node=0.3, names=names,
@@ -83,7 +114,7 @@ def e2e_case(rng):
     string = G.to_string(ast) + '.{' + ','.join('#%s=%s' % kv for kv in units.items()) + '}'
     from .. import oracles
     return dict(kind='e2e', string=string, base_expect=[oracles.expected_attrs(nd) for nd in nodes], atom_expect=expect_atoms,
-                features=sorted({'e2e', 'reuse_%d' % min(max(uses.values()), 8)} | ({'node_mult'} if 'node_mult' in feats else set())),
+                features=sorted({'e2e', 'reuse_%d' % min(max(uses.values()), 8)} | ({'node_mult'} if 'node_mult' in feats else set()) | ({'explicit_annotated_hydrogen'} if has_h else set())),
                 reuse=max(uses.values()))
 
 
